@@ -223,6 +223,29 @@ pub fn check(c: &Case, ctx: &mut Ctx) -> Result<(), Failure> {
             check_decomp_ok(a, d, c.tol, "decompose_for_tropical")?;
         }
     }
+    // adaptive: take the decomposition obtained without the test, compute its exact residual r, and ask again with
+    // tolerances below r: the stability test must then refuse (decided only where r clearly exceeds the rounding slack)
+    if c.tol.is_none() {
+        if let Ok(d) = &r {
+            if !has_nan(d) {
+                if let Some((exact, slack)) = exact_residual(a, &d.inv) {
+                    if exact.is_finite() && exact > 8.0 * slack && exact > 0.0 {
+                        for f in [0.25, 0.6] {
+                            let tol2 = exact * f;
+                            if let Ok(d2) = sut::decompose(a, Some(tol2)) {
+                                if let Some((e2, s2)) = exact_residual(a, &d2.inv) {
+                                    if !(e2 <= tol2 * (1.0 + 1e-9) + s2) {
+                                        fail!("ok-but-unstable", "decompose_for_tropical: stability test Some({tol2:e}) passed but the exact L_2,1 distance of inverse*matrix from the identity is {e2:e} (slack {s2:e}); matrix {a:?}");
+                                    }
+                                }
+                            }
+                            ctx.label("adaptive-tolerance-below-residual");
+                        }
+                    }
+                }
+            }
+        }
+    }
     if c.require_zero_det && !matches!(r, Err(SutErr::ZeroDet)) {
         fail!("zero-pivot-not-reported", "exactly singular matrix (zero last pivot) gave {r:?} instead of ZeroDet: {a:?}");
     }
